@@ -39,7 +39,8 @@ Definition ID_BIGNUM_BYTES : N := 6.
 Definition ID_CONSTR_GENERAL : N := 7.
 
 (* addresses travel as byte strings; [writer_form] restricts them to valid Shelley address bytes *)
-Definition AddressS := SNamed ID_ADDRESS (SBytes 29 57).
+(* up to 59 bytes: a pointer address with three 10-byte variable-length naturals *)
+Definition AddressS := SNamed ID_ADDRESS (SBytes 29 59).
 Definition RewardAddressS := SNamed ID_REWARD_ADDRESS (SBytes 29 29).
 
 Definition TransactionInput := arr [H32; U32].
